@@ -39,7 +39,11 @@ PICS = [("X", None), ("X(10)", None), ("XX", None), ("9", None), ("9(5)", None),
         ("9(3)", "DISPLAY"), ("S999", None), ("S9(8)", "COMP-4"), ("S9(4)", "COMPUTATIONAL"), ("X(120)", None)]
 
 EXTRAS = [[], [], [], [], ["SYNC"], ["BLANK", "WHEN", "ZERO"], ["JUSTIFIED", "RIGHT"], ["SYNCHRONIZED", "LEFT"]]
-VALUES = ["'A'", "'AB'", "ZERO", "SPACES", "12", "'X Y'", '"Q"', "'YES'"]
+# literals: apostrophe- and quotation-mark-delimited, each kind of quote inside the other, a doubled apostrophe, a period that is
+# not followed by white space, separators inside a literal (a period FOLLOWED by a blank inside a literal ends the sentence early:
+# finding, not generated here)
+VALUES = ["'A'", "'AB'", "ZERO", "SPACES", "12", "'X Y'", '"Q"', "'YES'", '"IT\'S"', "'SAY \"HI\"'", "'O''M'", '"A.B"', "'N.A.'",
+          "'1,5'", "'X;Y'", '"O\'NEIL"']
 
 
 def node(level, name=None, **kw):
